@@ -23,11 +23,11 @@ func init() {
 		[]string{"gRPC writes only through the net.Conn returned by the TransportCredentials handshake"},
 		runC05)
 	register("C11",
-		"EXCL: in Server.Accept and Client.Dial every path to a successful return on which a previous connection existed passes a receive on that connection's Done() channel (Accept: or returns io.EOF on quit); Done() returns the quit field, which the once-guarded Close closes on every path and only after the gbn connection and both relay streams have been released. SIDFRESH: both functions call connData.SID() on every invocation after that wait and before constructing; the sid handed to NewServerConn/NewClientConn is that fresh value (directly or through a dominating store to the sid field); on the leg 'sid changed and a previous connection exists' the old connection is stopped/closed and forgotten on every path from there on (no return and no Refresh in between), so the New constructor (not Refresh) runs - Refresh only under 'previous connection exists'; ConnData.SID and HandshakePattern branch on the same remoteKey != nil predicate and SetRemote stores the key; DoHandshake publishes the remote key for version >= 2 (C04 PUBLISH, re-checked). FRESH: RefreshServerConn/RefreshClientConn return a newly allocated connection with a newly allocated connKit, neither filled by a whole-struct copy of the closed connection; quit is a new channel, gbnConn the result of a new gbn.New*Conn, connKit.impl the new connection, and closeOnce / recvBuffer / read and write deadlines stay at their zero value (no unread bytes, closed channel or spent Once of the closed connection reach the connection handed out next). SIDFRESH also: ConnData.SetRemote stores the key on every successful return and on no failing one; every handshake machine is configured with its own connection data's HandshakePattern(), which returns XX exactly while no remote key is stored and KK afterwards. RETRY also: the client's create*MailBox return only under a successful Connect* or from their quit/ctx cases. DUPLEX callback locks: the relay operation of each of the four gbn callbacks runs under an exclusive mutex, and the send and the receive callback of one connection hold different mutexes (full duplex). EXCL also: temporaryError.Temporary is the constant true and Accept returns the constructors' errors wrapped in it (a failed attempt never ends the grpc accept loop). RETRY (as C05): the server re-creates the mailbox before every attempt to open its stream. SIDFRESH also: the remembered and the fresh SID are compared over all 64 bytes. RETRY also: initAccountCipherBox precedes every RecvStream/SendStream attempt of the server. The obligations of C12 (blocked calls are woken on shutdown) are imported as LAYER/C12. Not decided: behaviour over sequences of connect/close/relay-failure events; that a client knowing only the passphrase is rejected after pairing (follows cryptographically from the KK pattern, C03).",
+		"EXCL: in Server.Accept and Client.Dial every path to a successful return on which a previous connection existed passes a receive on that connection's Done() channel (Accept: or returns io.EOF on quit); Done() returns the quit field, which the once-guarded Close closes on every path and only after the gbn connection and both relay streams have been released. SIDFRESH: both functions call connData.SID() on every invocation after that wait and before constructing; the sid handed to NewServerConn/NewClientConn is that fresh value (directly or through a dominating store to the sid field); on the leg 'sid changed and a previous connection exists' the old connection is stopped/closed and forgotten on every path from there on (no return and no Refresh in between), so the New constructor (not Refresh) runs - Refresh only under 'previous connection exists'; ConnData.SID and HandshakePattern branch on the same remoteKey != nil predicate and SetRemote stores the key; DoHandshake publishes the remote key for version >= 2 (C04 PUBLISH, re-checked). FRESH: RefreshServerConn/RefreshClientConn return a newly allocated connection with a newly allocated connKit, neither filled by a whole-struct copy of the closed connection; quit is a new channel, gbnConn the result of a new gbn.New*Conn, connKit.impl the new connection, and closeOnce / recvBuffer / read and write deadlines stay at their zero value (no unread bytes, closed channel or spent Once of the closed connection reach the connection handed out next). SIDFRESH also: ConnData.SetRemote stores the key on every successful return and on no failing one; every handshake machine is configured with its own connection data's HandshakePattern(), which returns XX exactly while no remote key is stored and KK afterwards. RETRY also: the client's create*MailBox return only under a successful Connect* or from their quit/ctx cases. DUPLEX callback locks: the relay operation of each of the four gbn callbacks runs under an exclusive mutex, and the send and the receive callback of one connection hold different mutexes (full duplex). EXCL also: temporaryError.Temporary is the constant true and Accept returns the constructors' errors wrapped in it (a failed attempt never ends the grpc accept loop). RETRY (as C05): the server re-creates the mailbox before every attempt to open its stream. SIDFRESH also: the remembered and the fresh SID are compared over all 64 bytes. RETRY also: initAccountCipherBox precedes every RecvStream/SendStream attempt of the server. The obligations of C12 (blocked calls are woken on shutdown) are imported as LAYER/C12. LOCKBAL (as C05) and the transport adapter rules T-3/T-4 (socket errors reported, Refresh without the old streams) are shared. FRAME/RETRY/FRESH transport adapters: every CipherBox sent carries the payload as Msg, the Msg of the received box is what gbn gets, socket/stream errors are reported, Refresh() leaves the connected-ness fields unset. WRAP also: a handshake read deadline is cleared on every success path and connKit maps the zero deadline to "never" on the timeout setter of its own direction. Not decided: behaviour over sequences of connect/close/relay-failure events; that a client knowing only the passphrase is rejected after pairing (follows cryptographically from the KK pattern, C03).",
 		nil,
 		runC11)
 	register("C17",
-		"CONST: NumPassphraseEntropyBytes*8 >= NumPassphraseWords*aezeed.BitsPerWord and NumPassphraseEntropyBytes = ceil(that/8). CODEC-SIB: PassphraseEntropyToMnemonic and PassphraseMnemonicToEntropy read/write with the same constant object aezeed.BitsPerWord, iterate NumPassphraseWords times, use the paired tables aezeed.DefaultWordList / aezeed.ReverseWordMap, the writer is sized by NumPassphraseEntropyBytes, and NewPassphraseEntropy normalises by the round trip. SIDDIR: the boolean direction flags passed to GetSID for the receive and send streams are complementary within client and within server and mirrored between them (client.send = server.receive, client.receive = server.send); Refresh* copies both stream IDs unchanged; GetSID returns its input on one leg and XORs a non-zero constant into one byte on the other (the two directions never share a stream); ConnData.SID is the only producer of the sid used by Server/Client and hashes (SHA-512) the whole passphrase entropy or the HMAC of the ECDH output. SIDFRESH (as C11): Accept and Dial recompute that SID on every call after waiting for the previous connection, hand exactly that value to the constructor and drop the old connection when it changed - so after pairing both sides are on the key-derived streams. SIDDIR stream direction: each relay-facing function of mailbox (classified by the relay API it calls or the ClientConnTransport slot it implements) touches only the stream ID of its own direction. SIDFRESH also: DoHandshake publishes the remote key under the negotiated version >= 2; ConnData.SetRemote stores the key on every successful return; every handshake machine is configured with cfg.ConnData.HandshakePattern(), which returns XX exactly while no remote key is stored. CODEC-SIB also: NewClientWebsocketConn cuts the typed phrase with strings.Split/Fields over the whole phrase and copies the pieces into the word array. Not decided: bit-exact inversion of the bit-stream codec (bstream semantics, word list contents), ECDH symmetry, hash collision freedom - trusted.",
+		"CONST: NumPassphraseEntropyBytes*8 >= NumPassphraseWords*aezeed.BitsPerWord and NumPassphraseEntropyBytes = ceil(that/8). CODEC-SIB: PassphraseEntropyToMnemonic and PassphraseMnemonicToEntropy read/write with the same constant object aezeed.BitsPerWord, iterate NumPassphraseWords times, use the paired tables aezeed.DefaultWordList / aezeed.ReverseWordMap, the writer is sized by NumPassphraseEntropyBytes, and NewPassphraseEntropy normalises by the round trip. SIDDIR: the boolean direction flags passed to GetSID for the receive and send streams are complementary within client and within server and mirrored between them (client.send = server.receive, client.receive = server.send); Refresh* copies both stream IDs unchanged; GetSID returns its input on one leg and XORs a non-zero constant into one byte on the other (the two directions never share a stream); ConnData.SID is the only producer of the sid used by Server/Client and hashes (SHA-512) the whole passphrase entropy or the HMAC of the ECDH output. SIDFRESH (as C11): Accept and Dial recompute that SID on every call after waiting for the previous connection, hand exactly that value to the constructor and drop the old connection when it changed - so after pairing both sides are on the key-derived streams. SIDDIR stream direction: each relay-facing function of mailbox (classified by the relay API it calls or the ClientConnTransport slot it implements) touches only the stream ID of its own direction. SIDFRESH also: DoHandshake publishes the remote key under the negotiated version >= 2; ConnData.SetRemote stores the key on every successful return; every handshake machine is configured with cfg.ConnData.HandshakePattern(), which returns XX exactly while no remote key is stored. CODEC-SIB also: NewClientWebsocketConn cuts the typed phrase with strings.Split/Fields over the whole phrase and copies the pieces into the word array. SIDDIR also: every fallible step of ConnData.SID has its error tested and returned. Not decided: bit-exact inversion of the bit-stream codec (bstream semantics, word list contents), ECDH symmetry, hash collision freedom - trusted.",
 		[]string{"aezeed.DefaultWordList has 2^BitsPerWord distinct words and ReverseWordMap is its inverse; bstream reads and writes bits MSB first"},
 		runC17)
 }
@@ -1492,6 +1492,28 @@ func runC17(c *Checker) {
 				stale = w.canonFB(v) + " at " + w.pos(instrPos(ret))
 			}
 		})
+		// no error on the way to the SID is dropped: a failed ECDH (locked wallet, remote signer down)
+		// must fail SID(), not yield the hash of an all-zero secret - a rendezvous everybody can compute
+		{
+			bad := ""
+			n := 0
+			allInstrs(sidFn, func(in ssa.Instruction) {
+				call, ok := in.(*ssa.Call)
+				if !ok {
+					return
+				}
+				tup, ok := call.Type().(*types.Tuple)
+				if !ok || tup.Len() < 2 || !isErrorType(tup.At(tup.Len()-1).Type()) {
+					return
+				}
+				n++
+				if e, why := errCheckedAndReturned(call, tup.Len()-1); !e {
+					bad = calleeLabel(call.Common()) + ": " + why
+				}
+			})
+			c.decide(bad == "" && n >= 2, "SIDDIR", "ConnData.SID|every error on the way is returned", sidFn.Pos(), fmt.Sprintf("%d fallible steps (ECDH, HMAC), each error tested and returned", n),
+				"ConnData.SID drops an error ("+bad+"): a failed step yields the hash of an empty secret instead of an error - a session identifier that depends on no secret and is the same for everybody")
+		}
 		c.decide(stale == "", "SIDDIR", "ConnData.SID|recomputed at every call", sidFn.Pos(), "every successful return carries a hash computed in this invocation",
 			"SID() can return "+stale+", a value not derived from the currently stored secret in this call: after the secret changes (pairing) the two sides can disagree on the rendezvous")
 		// the sid stored in Server/Client comes from SID()
